@@ -256,3 +256,70 @@ Example C04_any_options_nonvacuous :
   prefix_free c04_targets_rcfg && class_iris_ok c04_targets_rcfg g_reftie_1 = true /\
   exists text, run_shexc BAlg c04_targets_rcfg thr0 g_reftie_1 = inl text.
 Proof. split; [reflexivity|]. split; [vm_compute; reflexivity|]. eexists. vm_compute. reflexivity. Qed.
+
+(** ** SHAPE-MAP runs ([Model.RunMap.run_shapes_map] / [run_shexc_map]: C10's
+    tracker model, then the frozen profiler, shexing and serialiser models).
+    Error outcomes name the stage: [MECtor] = raised by Shaper(...), [METrack]
+    = by the instance trackers, [MERun] = profiler / shexing stage /
+    serialiser ([RERandom] = no priority prefix free: outside the model).
+    - [C04_map_errors_characterised]: which stage failed, exactly;
+    - [C04_map_run_total_tokens]: constructor, trackers and profiler having
+      succeeded with a profile whose type keys are renderable, the shapes are
+      produced for every threshold and every algebra -- provided disjunctions
+      are disabled (the default) or empty shapes are kept;
+    - [C04_choice_prune_run_refuted] (finding C04-F1): both switched the other
+      way, a label whose node has no triples makes the run raise TypeError.
+      The real Shaper raises the same exception on this input (pinned
+      reproducer); the hypothesis of the theorem above is therefore needed. *)
+From Shexer Require Import Model.RunMap Proofs.RunMapProofs Proofs.RunMapWitness.
+From Shexer Require Model.Selectors.
+
+Theorem C04_map_errors_characterised : forall fa c orc sp thr g e,
+  run_shapes_map fa c orc sp thr g = inr e <-> map_failure fa c orc sp thr g e.
+Proof. exact run_shapes_map_err_iff. Qed.
+Print Assumptions C04_map_errors_characterised.
+
+Theorem C04_map_run_total_tokens : forall fa c orc sp thr g I targets P C ID,
+  r_disable_or c = true \/ r_remove_empty c = false ->
+  r_disable_or c && r_allow_redundant_or c = false ->
+  Selectors.find_adequate_prefix (Selectors.sp_ns sp) <> None ->
+  Selectors.run orc sp g = Selectors.OOk I ->
+  prof_targets orc sp = Selectors.Ok targets ->
+  profile (pcfg_map c orc sp targets) I g = inl (P, C, ID) ->
+  (forall ce, In ce P -> tokens_ok (scfg_map c sp (Selectors.ns_with_shapes orc sp)) ce) ->
+  exists shapes, run_shapes_map fa c orc sp thr g = inl (Selectors.ns_with_shapes orc sp, shapes).
+Proof. exact map_run_total_tokens. Qed.
+Print Assumptions C04_map_run_total_tokens.
+
+(** the only failure left after a successful front is the shexing stage's *)
+Theorem C04_map_failure_after_front : forall fa c orc sp thr g I targets P C ID e,
+  Selectors.run orc sp g = Selectors.OOk I -> prof_targets orc sp = Selectors.Ok targets ->
+  profile (pcfg_map c orc sp targets) I g = inl (P, C, ID) ->
+  r_disable_or c && r_allow_redundant_or c = false ->
+  Selectors.find_adequate_prefix (Selectors.sp_ns sp) <> None ->
+  run_shapes_map fa c orc sp thr g = inr e ->
+  exists se, e = MERun (rerr_of_s se) /\
+             shex fa (scfg_map c sp (Selectors.ns_with_shapes orc sp)) thr P C = inr se.
+Proof. exact map_failure_after_front. Qed.
+Print Assumptions C04_map_failure_after_front.
+
+(** non-vacuity: the pinned shape-map run with the default options *)
+Example C04_map_nonvacuous :
+  exists text, run_shexc_map BAlg base_rcfg m_orc m_spec thr0 m_graph = inl text.
+Proof. eexists. vm_compute. reflexivity. Qed.
+
+(** C04-F1 on the run: a valid graph, a valid shape map, an accepted configuration
+    (disable_or_statements=False, allow_redundant_or=True, remove_empty_shapes on) *)
+Lemma C04_choice_prune_run_refuted :
+  exists c orc sp g thr I,
+    r_disable_or c = false /\ r_remove_empty c = true /\
+    Selectors.run orc sp g = Selectors.OOk I /\
+    run_shapes_map BAlg c orc sp thr g = inr (MERun REType) /\
+    run_shexc_map BAlg c orc sp thr g = inr (MERun REType) /\
+    (* the same run with empty shapes kept succeeds *)
+    (exists text, run_shexc_map BAlg (with_remove false c) orc sp thr g = inl text).
+Proof.
+  exists (with_or false true base_rcfg), m_orc, m_spec, m_graph, thr0. eexists.
+  split; [reflexivity|]. split; [reflexivity|]. split; [vm_compute; reflexivity|].
+  split; [vm_compute; reflexivity|]. split; [vm_compute; reflexivity|]. eexists. vm_compute. reflexivity.
+Qed.
